@@ -32,7 +32,7 @@ Z8 == Zero(8)
 SetF(f, k, v) == [y \in DOMAIN f \cup {k} |-> IF y = k THEN v ELSE f[y]]
 DelF(f, k) == [y \in DOMAIN f \ {k} |-> f[y]]
 
-Join(dir, p) == IF dir = "" THEN p ELSE dir \o "/" \o p
+Join(dir, p) == IF dir = "" THEN p ELSE IF p = "" THEN dir ELSE dir \o "/" \o p
 Exists(s, p) == p \in DOMAIN s.fs
 IsDir(s, p) == p = "" \/ (Exists(s, p) /\ s.fs[p].kind = "dir")
 IsFile(s, p) == Exists(s, p) /\ s.fs[p].kind = "file"
@@ -93,6 +93,7 @@ PathOpen(s, c) ==
         entry(kind) == [st |-> "open", kind |-> kind, path |-> p, pos |-> Z8, app |-> c.app, rd |-> c.rd \/ ~c.wr, wr |-> c.wr]
     IN  IF Exists(s, p) THEN
             IF creat /\ excl THEN Res(s, EEXIST, NoOut)
+            ELSE IF s.fs[p].kind = "link" THEN Res(s, EUNSPEC, NoOut)          \* symbolic links are followed by the host
             ELSE IF s.fs[p].kind = "dir" THEN
                 (IF c.wr \/ creat \/ trunc THEN Res(s, EISDIR, NoOut)
                  ELSE Res([s EXCEPT !.fds = Append(@, entry("dir"))], ESUCCESS, [fd |-> newfd]))
@@ -100,14 +101,18 @@ PathOpen(s, c) ==
             ELSE LET s2 == IF trunc THEN [s EXCEPT !.fs[p] = EmptyFile] ELSE s
                  IN  Res([s2 EXCEPT !.fds = Append(@, entry("file"))], ESUCCESS, [fd |-> newfd])
         ELSE IF ~creat THEN Res(s, ENOENT, NoOut)
+        ELSE IF ~IsDir(s, Join(IF c.abs THEN "" ELSE d.path, c.parent)) THEN Res(s, ENOENT, NoOut)
         ELSE IF dirf THEN Res(s, EINVAL, NoOut)               \* O_CREAT | O_DIRECTORY: Linux refuses
         ELSE Res([s EXCEPT !.fs = SetF(@, p, EmptyFile), !.fds = Append(@, entry("file"))], ESUCCESS, [fd |-> newfd])
 
 \* the descriptor must denote an open regular file for data transfer
 DataFd(s, fd) == Live(s, fd) /\ FdOf(s, fd).st = "open"
+\* an open file whose name was unlinked or renamed away lives on in the host; the model does not follow it
+Orphan(s, fd) == DataFd(s, fd) /\ FdOf(s, fd).kind = "file" /\ ~IsFile(s, FdOf(s, fd).path)
 
 FdWrite(s, c, positional) ==
     IF ~DataFd(s, c.fd) THEN Res(s, EBADF, NoOut)
+    ELSE IF Orphan(s, c.fd) THEN Res(s, EUNSPEC, NoOut)
     ELSE LET d == FdOf(s, c.fd) IN
     IF d.kind = "dir" \/ ~d.wr THEN Res(s, EBADF, NoOut)
     ELSE IF Concat(c.segs) = <<>> THEN Res(s, ESUCCESS, [n |-> 0])          \* nothing to write: nothing moves
@@ -120,6 +125,7 @@ FdWrite(s, c, positional) ==
 
 FdRead(s, c, positional) ==
     IF ~DataFd(s, c.fd) THEN Res(s, EBADF, NoOut)
+    ELSE IF Orphan(s, c.fd) THEN Res(s, EUNSPEC, NoOut)
     ELSE LET d == FdOf(s, c.fd) IN
     IF ~d.rd THEN Res(s, EBADF, NoOut)
     ELSE IF d.kind = "dir" THEN Res(s, IF SumLens(c.lens) = 0 THEN EUNSPEC ELSE EISDIR, NoOut)
@@ -138,7 +144,7 @@ FdSeek(s, c) ==
     LET wh == Whence(c.abi, c.whence) IN
     IF wh = "bad" THEN Res(s, EINVAL, NoOut)
     ELSE IF ~DataFd(s, c.fd) THEN Res(s, EBADF, NoOut)
-    ELSE IF FdOf(s, c.fd).kind = "dir" THEN Res(s, EUNSPEC, NoOut)      \* seeking a directory stream: the host's business
+    ELSE IF FdOf(s, c.fd).kind = "dir" \/ Orphan(s, c.fd) THEN Res(s, EUNSPEC, NoOut)      \* seeking a directory stream: the host's business
     ELSE LET d == FdOf(s, c.fd)
              base == IF wh = "set" THEN Z8 ELSE IF wh = "cur" THEN d.pos ELSE (IF d.kind = "file" THEN s.fs[d.path].size ELSE Z8)
              target == Add(base, c.delta)
@@ -155,6 +161,7 @@ FdFilestat(s, c) ==
     ELSE LET d == FdOf(s, c.fd) IN
     IF d.st = "std" THEN Res(s, ESUCCESS, [size |-> Z8, ftype |-> 2, skip |-> TRUE])
     ELSE IF d.kind = "dir" THEN Res(s, ESUCCESS, [size |-> Z8, ftype |-> 3, skip |-> TRUE])
+    ELSE IF Orphan(s, c.fd) THEN Res(s, EUNSPEC, NoOut)
     ELSE Res(s, ESUCCESS, [size |-> s.fs[d.path].size, ftype |-> 4, skip |-> FALSE])
 
 FdClose(s, c) ==
@@ -165,6 +172,58 @@ FdClose(s, c) ==
 FdPrestat(s, c) ==
     IF ~Live(s, c.fd) \/ FdOf(s, c.fd).st # "preopen" THEN Res(s, EBADF, NoOut)
     ELSE Res(s, ESUCCESS, [preopen |-> TRUE])
+
+----------------------------------------------------------------------------
+(* path operations (C14): resolve against the descriptor's path, then exactly one host operation *)
+\* direct or indirect children of directory p.  Paths are strings: "is below p" is decided on the path lists the
+\* scenario supplies (c.under = the paths of the tree that lie below the path the call names)
+ParentOf(c) == c.parent                       \* the resolved parent directory, "" for the sandbox root (supplied with the call)
+HasChildren(s, p, under) == \E q \in DOMAIN s.fs : q \in under
+PathOp(s, c) ==
+    IF ~Live(s, c.dirfd) \/ (c.call = "rename" /\ ~Live(s, c.fd)) THEN Res(s, EBADF, NoOut)
+    ELSE LET d == FdOf(s, c.dirfd) IN
+    IF d.st = "std" \/ (c.call = "rename" /\ FdOf(s, c.fd).st = "std") THEN Res(s, EBADF, NoOut)
+    ELSE IF c.path = "" THEN Res(s, EINVAL, NoOut)
+    ELSE IF d.kind = "file" THEN Res(s, EUNSPEC, NoOut)
+    ELSE
+    LET p == Join(d.path, c.path)
+        under == {c.under[j] : j \in DOMAIN c.under}
+        parentOK == IsDir(s, Join(d.path, c.parent))
+    IN  CASE c.call = "mkdir" ->
+               IF Exists(s, p) THEN Res(s, EEXIST, NoOut)
+               ELSE IF ~parentOK THEN Res(s, ENOENT, NoOut)
+               ELSE Res([s EXCEPT !.fs = SetF(@, p, [kind |-> "dir"])], ESUCCESS, NoOut)
+          [] c.call = "rmdir" ->
+               IF ~Exists(s, p) THEN Res(s, ENOENT, NoOut)
+               ELSE IF s.fs[p].kind # "dir" THEN Res(s, ENOTDIR, NoOut)
+               ELSE IF \E q \in DOMAIN s.fs : q \in under THEN Res(s, ENOTEMPTY, NoOut)
+               ELSE Res([s EXCEPT !.fs = DelF(@, p)], ESUCCESS, NoOut)
+          [] c.call = "unlink" ->
+               IF ~Exists(s, p) THEN Res(s, ENOENT, NoOut)
+               ELSE IF s.fs[p].kind = "dir" THEN Res(s, EISDIR, NoOut)
+               ELSE Res([s EXCEPT !.fs = DelF(@, p)], ESUCCESS, NoOut)
+          [] c.call = "symlink" ->
+               IF Exists(s, p) THEN Res(s, EEXIST, NoOut)
+               ELSE IF ~parentOK THEN Res(s, ENOENT, NoOut)
+               ELSE Res([s EXCEPT !.fs = SetF(@, p, [kind |-> "link", target |-> c.target])], ESUCCESS, NoOut)
+          [] c.call = "readlink" ->
+               IF c.buflen = 0 THEN Res(s, EUNSPEC, NoOut)              \* a zero-sized buffer: the host decides
+               ELSE IF ~Exists(s, p) THEN Res(s, ENOENT, NoOut)
+               ELSE IF s.fs[p].kind # "link" THEN Res(s, EINVAL, NoOut)
+               ELSE Res(s, ESUCCESS, [target |-> s.fs[p].target, buflen |-> c.buflen])
+          [] c.call = "pathstat" ->
+               IF ~Exists(s, p) THEN Res(s, ENOENT, NoOut)
+               ELSE IF s.fs[p].kind = "link" THEN Res(s, EUNSPEC, NoOut)
+               ELSE IF s.fs[p].kind = "dir" THEN Res(s, ESUCCESS, [size |-> Z8, ftype |-> 3, skip |-> TRUE])
+               ELSE Res(s, ESUCCESS, [size |-> s.fs[p].size, ftype |-> 4, skip |-> FALSE])
+          [] c.call = "rename" ->
+               LET d2 == FdOf(s, c.fd)  q == Join(d2.path, c.path2) IN
+               IF d2.kind = "file" THEN Res(s, EUNSPEC, NoOut)
+               ELSE IF ~Exists(s, p) THEN Res(s, ENOENT, NoOut)
+               ELSE IF s.fs[p].kind = "dir" \/ (Exists(s, q) /\ s.fs[q].kind = "dir") THEN Res(s, EUNSPEC, NoOut)   \* directory renames: not modelled
+               ELSE IF ~IsDir(s, Join(d2.path, c.parent2)) THEN Res(s, ENOENT, NoOut)
+               ELSE IF p = q THEN Res(s, ESUCCESS, NoOut)
+               ELSE Res([s EXCEPT !.fs = SetF(DelF(@, p), q, s.fs[p])], ESUCCESS, NoOut)
 
 Call(s, c) ==
     CASE c.call = "open"     -> PathOpen(s, c)
@@ -179,11 +238,9 @@ Call(s, c) ==
       [] c.call \in {"prestat", "prestatname"} -> FdPrestat(s, c)
       \* calls whose full meaning belongs to other properties: here only "closed or never issued => EBADF"
       [] c.call \in {"readdir", "fdstat", "sync", "datasync"} -> (IF ~Live(s, c.fd) THEN Res(s, EBADF, NoOut) ELSE Res(s, EUNSPEC, NoOut))
-      [] c.call \in {"mkdir", "rmdir", "unlink", "readlink", "pathstat", "symlink"} ->
-             (IF ~Live(s, c.dirfd) \/ FdOf(s, c.dirfd).st = "std" THEN Res(s, EBADF, NoOut) ELSE Res(s, EUNSPEC, NoOut))
-      [] c.call = "rename" -> (IF ~Live(s, c.dirfd) \/ ~Live(s, c.fd) \/ FdOf(s, c.dirfd).st = "std" \/ FdOf(s, c.fd).st = "std"
-                               THEN Res(s, EBADF, NoOut) ELSE Res(s, EUNSPEC, NoOut))
+      [] c.call \in {"mkdir", "rmdir", "unlink", "readlink", "pathstat", "symlink", "rename"} -> PathOp(s, c)
       [] c.call = "mkfile"   -> Res([s EXCEPT !.fs = SetF(@, c.path, PutAt(EmptyFile, Z8, c.bytes))], ESUCCESS, NoOut)   \* scenario setup
+      [] c.call = "mklink"   -> Res([s EXCEPT !.fs = SetF(@, c.path, [kind |-> "link", target |-> c.target])], ESUCCESS, NoOut)
       [] c.call = "mkdirs"   -> Res([s EXCEPT !.fs = SetF(@, c.path, [kind |-> "dir"])], ESUCCESS, NoOut)
 
 ----------------------------------------------------------------------------
@@ -191,7 +248,7 @@ Call(s, c) ==
 FsOK(s) == \A p \in DOMAIN s.fs : s.fs[p].kind = "file" =>
                \A o \in DOMAIN s.fs[p].data : LtU(o, s.fs[p].size)
 FdsOK(s) == /\ Len(s.fds) >= 4 /\ \A k \in 1..3 : s.fds[k].st = "std"
-            /\ \A k \in 1..Len(s.fds) : s.fds[k].st = "open" => Exists(s, s.fds[k].path)
+
 
 ----------------------------------------------------------------------------
 (* replay of generated histories: INFILE lines [id, calls]; OUTFILE lines [id, k, errno, out, fs] *)
@@ -202,6 +259,7 @@ FsOut(s) == LET ps == DOMAIN s.fs
                 RECURSIVE Sq(_)
                 Sq(P) == IF P = {} THEN <<>> ELSE LET p == CHOOSE p \in P : TRUE IN
                     <<IF s.fs[p].kind = "dir" THEN [path |-> p, kind |-> "dir", size |-> Z8, data |-> <<>>]
+                      ELSE IF s.fs[p].kind = "link" THEN [path |-> p, kind |-> "link", size |-> Z8, data |-> <<>>]
                       ELSE [path |-> p, kind |-> "file", size |-> s.fs[p].size,
                             data |-> LET D == DOMAIN s.fs[p].data
                                          RECURSIVE Dq(_)
